@@ -38,6 +38,7 @@ type history struct {
 	Module    string  `json:"module"`
 	Stakes    []int64 `json:"stakes_fx"`
 	Window    uint64  `json:"signed_window"`
+	LowStake  bool    `json:"low_stake_threshold,omitempty"`
 	GovQuorum string  `json:"gov_quorum"`
 	Blocks    [][]op  `json:"ops_per_block"`
 	Failure   string  `json:"failure,omitempty"`
@@ -111,6 +112,9 @@ func main() {
 	// cancelled by its proposer in the following block (queue bookkeeping of the conversion); and the same with a
 	// second expedited proposal that simply runs to its regular end
 	for k, blocks := range [][][]op{
+		// proposal 1 regular and unvoted; proposal 2 expedited: the governance account deposits into proposal 1; it passes
+		// first, then proposal 1 closes and its refund loop reaches the governance account's own deposit
+		{{{Kind: "gov_proposal", A: 2}, {Kind: "gov_proposal_dep", A: 0, B: 0}}, {{Kind: "gov_vote", A: 0, B: 1}, {Kind: "gov_vote", A: 1, B: 1}}, {}, {}, {}, {}, {}},
 		{{{Kind: "gov_proposal", A: 10}}, {}, {{Kind: "gov_cancel", B: 0}}, {}, {}, {}, {}},
 		{{{Kind: "gov_proposal", A: 10}, {Kind: "gov_proposal", A: 20}}, {}, {}, {{Kind: "gov_cancel", B: 1}}, {}, {}, {}, {}},
 	} {
@@ -157,13 +161,31 @@ func runHistory(r *lib.Rand, hseed int64, module string, rep *lib.Report, items 
 	lib.Must(c.NextBlock())
 	x := c.X(module)
 	if script != nil {
-		h.Stakes, h.Window = script.Stakes, script.Window
+		h.Stakes, h.Window, h.LowStake = script.Stakes, script.Window, script.LowStake
 	} else {
 		n := 1 + r.Intn(5)
+		// rare configuration: governance lowers the delegate threshold below one power unit (100 FX), so oracles
+		// with power 0 exist — possibly ALL of them
+		h.LowStake = r.Chance(15)
 		for i := 0; i < n; i++ {
-			h.Stakes = append(h.Stakes, 10000+int64(r.Intn(10))*10000)
+			if h.LowStake {
+				if r.Chance(25) {
+					h.Stakes = append(h.Stakes, 100+int64(r.Intn(50)))
+				} else {
+					h.Stakes = append(h.Stakes, 10+int64(r.Intn(90)))
+				}
+			} else {
+				h.Stakes = append(h.Stakes, 10000+int64(r.Intn(10))*10000)
+			}
 		}
 		h.Window = 2 + uint64(r.Intn(3))
+	}
+	if h.LowStake {
+		lp := x.Keeper.GetParams(c.Ctx)
+		lp.DelegateThreshold = sdk.NewCoin(fxtypes.DefaultDenom, sdkmath.NewInt(10).MulRaw(1e18))
+		lp.DelegateMultiple = 1000
+		_, err := x.Msg().UpdateParams(c.Ctx, &crosschaintypes.MsgUpdateParams{ChainName: module, Authority: lib.GovAuthority(), Params: lp})
+		lib.Must(err)
 	}
 	x.SetupOracles(h.Stakes)
 	params := x.Keeper.GetParams(c.Ctx)
@@ -323,13 +345,22 @@ func runHistory(r *lib.Rand, hseed int64, module string, rep *lib.Report, items 
 				}
 				pid := uint64(1 + int(o.B)%proposals)
 				voter := c.ValKeys[o.A%len(c.ValKeys)]
-				opt := []govv1.VoteOption{govv1.OptionYes, govv1.OptionNo, govv1.OptionAbstain, govv1.OptionNoWithVeto}[int(o.B)%4]
+				opt := []govv1.VoteOption{govv1.OptionYes, govv1.OptionNo, govv1.OptionAbstain, govv1.OptionNoWithVeto}[int(o.B>>1)%4]
 				e := c.Try(func(ctx sdk.Context) error {
 					m := govv1.NewMsgVote(voter.Acc(), pid, opt, "")
 					_, err := c.App.MsgServiceRouter().Handler(m)(ctx, m)
 					return err
 				})
 				o.Res = errClass(e)
+			case "gov_proposal_dep":
+				// a proposal whose message is a deposit BY the governance account into another open proposal
+				if proposals == 0 {
+					o.Res = "none"
+					break
+				}
+				proposals++
+				target := uint64(1 + int(o.B)%(proposals-1))
+				o.Res = errClass(submitDepositProposal(c, user, target, o.A%2 == 0))
 			case "gov_proposal":
 				// a bank send out of the gov account (fails at execution: gov has no such funds) or a text-like proposal;
 				// exercises the real gov end blocker (deposit refund/burn, tally, failing message)
@@ -376,8 +407,30 @@ func runHistory(r *lib.Rand, hseed int64, module string, rep *lib.Report, items 
 }
 
 func genOp(r *lib.Rand, nOracles int) op {
-	kinds := []string{"bridge_call", "bridge_call", "inject_batch", "inject_batch", "confirm_oset", "confirm_oset", "confirm_batch", "confirm_bcall", "confirm_bcall", "add_delegate", "gov_proposal", "top_up", "top_up", "gov_vote", "gov_vote", "set_window", "gov_cancel"}
+	kinds := []string{"bridge_call", "bridge_call", "inject_batch", "inject_batch", "confirm_oset", "confirm_oset", "confirm_batch", "confirm_bcall", "confirm_bcall", "add_delegate", "gov_proposal", "top_up", "top_up", "gov_vote", "gov_vote", "set_window", "gov_cancel", "gov_proposal_dep"}
 	return op{Kind: kinds[r.Intn(len(kinds))], A: r.Intn(nOracles + 6), B: uint64(r.Intn(8))}
+}
+
+func submitDepositProposal(c *lib.Chain, user lib.Key, target uint64, expedited bool) error {
+	return c.Try(func(ctx sdk.Context) error {
+		params, err := c.App.GovKeeper.Params.Get(ctx)
+		if err != nil {
+			return err
+		}
+		dep := sdk.NewCoins(params.MinDeposit...)
+		if expedited && len(params.ExpeditedMinDeposit) > 0 && params.ExpeditedMinDeposit[0].Denom == dep[0].Denom {
+			dep = sdk.NewCoins(params.ExpeditedMinDeposit...)
+		} else {
+			expedited = false
+		}
+		inner := govv1.NewMsgDeposit(sdk.MustAccAddressFromBech32(lib.GovAuthority()), target, sdk.NewCoins(sdk.NewCoin(params.MinDeposit[0].Denom, params.MinDeposit[0].Amount.QuoRaw(10))))
+		m, err := govv1.NewMsgSubmitProposal([]sdk.Msg{inner}, dep, user.Acc().String(), "", "t", "s", expedited)
+		if err != nil {
+			return err
+		}
+		_, err = c.App.MsgServiceRouter().Handler(m)(ctx, m)
+		return err
+	})
 }
 
 func submitProposal(c *lib.Chain, user lib.Key, variant int) error {
